@@ -68,15 +68,18 @@ TEXT = {
 TRANSLATED = {
  "C01": "RankSupport::rank{,_unchecked}, SelectSupport::select_unchecked (scan loop included), BitVector::{len, count_ones, get, rank, select, select_zero, select_iter, select_zero_iter, predecessor, successor, one_iter, zero_iter, iter}",
  "C02": "SparseVector::{split, combine, pos, lower_bound, upper_bound, select, get, rank, predecessor, successor, count_zeros} (bucket scans included), SparseBuilder::get_buckets",
- "C03": "SampleIndex::{div_round_up, parameters, range}",
- "C04": "WMCore::{bit_value, map_down_one, map_down_zero, map_up_one, map_up_zero}",
- "C05": "RawVector::{bit, int, word, word_unchecked, set_unused_bits, set_bit, set_int, push_bit, push_int, pop_bit, pop_int, resize}, IntVector::{get, set, push}",
- "C06": "the field order of serialize_header / serialize_body, the load order and the size_in_elements summands of all 14 `impl Serialize` blocks",
+ "C03": "SampleIndex::{div_round_up, parameters, range}, RLVector::{blocks, ones_after, decode, block_for, iter_for_block, run_iter} (decode loop and binary search included)",
+ "C04": "WMCore::{bit_value, map_down_one, map_down_zero, map_up_one, map_up_zero, map_down, map_down_with, map_down_with_two_positions, map_up_with} (level loops included), WaveletMatrix::{start, contains, rank, select, inverse_select, get}, ValueIter::next, the default VectorIndex::{predecessor, successor}",
+ "C05": "RawVector::{bit, int, word, word_unchecked, set_unused_bits, set_bit, set_int, push_bit, push_int, pop_bit, pop_int, resize, count_ones}, IntVector::{new, with_len, get, set, push, pop, clear}",
+ "C06": "the field order of serialize_header / serialize_body, the load order and the size_in_elements summands of all 14 `impl Serialize` blocks; the `load` functions of RawVector, IntVector, RankSupport, SelectSupport, BitVector, SparseVector, WaveletMatrix (reader threaded through, every sanity check)",
  "C08": "Identity / Complement ::{bit, word, word_unchecked, count_ones}",
  "C10": "the five methods of ops::AccessIter and of bit_vector::Iter; OneIter<T>::{next, nth, next_back, size_hint} (word scans included)",
+ "C12": "RawVectorWriter::{push_bit, push_int, close_with_header, close}, IntVectorWriter::{push, close} (flush / write_header named by their model functions)",
+ "C13": "RawVectorMapper::{bit, int, word, word_unchecked, count_ones}, IntVectorMapper::get (definitionally the in-memory accessors)",
  "C14": "every statement of every serialize_header / serialize_body (obligation: each is a `?`-joined serialize / write_all)",
  "C16": "RLBuilder::{count_zeros, code_len, flush, set_run_unchecked, set_bit_unchecked, try_set, set_len}, SparseBuilder::{is_full, capacity, universe, next_index, is_multiset, is_empty, set_unchecked, try_set}",
  "C17": "every function of bits.rs except select: low_set, high_set (+ unchecked), bit_len, reverse_low, filler_value, read_int, write_int and the nine rounding / offset helpers",
+ "C19": "BitVector::{supports_rank, supports_select, supports_select_zero, supports_pred_succ, enable_rank, enable_select, enable_select_zero, enable_pred_succ}",
 }
 
 
@@ -95,7 +98,7 @@ def main():
                   "source_commits": hook, "add_only": True},
         "engines": [{"name": "lean-proof+correspondence", "path": "tools/check.py", "serves_properties": claimed,
                      "kind_free_text": "Lean 4 theorems about an executable model (core Lean, kernel-checked, axioms audited) + a translator that on every run "
-                                       "regenerates from /repo/src the tables / constants / atomic-op shape AND, statement by statement, the bodies of 122 functions "
+                                       "regenerates from /repo/src the tables / constants / atomic-op shape AND, statement by statement, the bodies of 160 functions "
                                        "(loops and loaders included) and the shape of all 14 serializers, each tied to the model by a proven equation + a differential correspondence check "
                                        "(Rust harness linking the real crate vs compiled Lean driver running the model's executable definitions and an independent spec)"}],
         "checks": [], "not_applicable": [],
